@@ -569,7 +569,7 @@ func runC02(c *RuleCtx) {
 			}
 			n++
 			a := AtomBool("expiry.Before(now)", func(v *V) bool {
-				return v.IsCall("time.Time.Before") && len(v.Args) == 2 && v.Args[0].Kind == "var" && v.Args[1].Kind == "var" && v.Args[1].Name == "now"
+				return v.IsCall("time.Time.Before") && len(v.Args) == 2 && (v.Args[0].Kind == "rangeval" || v.Args[0].Kind == "var") && v.Args[1].Kind == "var" && v.Args[1].Name == "now"
 			})
 			ok2, why := p.DomAny(f, ce, AtomWant{a, true})
 			c.Check(ok2, "R02.4", f.Name, "delete only when expiry.Before(now)", ce, why, why)
